@@ -190,6 +190,30 @@ class Skeleton:
             strict = False
         return {"kinds": frozenset(kinds), "strict": strict, "nt": nt}
 
+    def own_nt(self, path):
+        """why parser function `path` can run across a newline by its *own* body - a take_while whose class contains the
+        newline (or is unknown), a slice whose bound is a data value - as opposed to through another parser function"""
+        f = self.fns.get(path)
+        out = []
+        if f is None:
+            return out
+        ps = f["ps"]
+        for x in f["exits"]:
+            for (pid, inp, t, oc) in self.apps_on_path(x, ps):
+                q = pid
+                while q and q[0] == "optional" and q[1]:
+                    q = q[1]
+                if q and q[0] not in ("fn", "factory") and self.attr(pid).get("nt"):
+                    out.append("take_while over a class that contains the newline" if q[0] == "take_while" else "a recogniser of unknown class")
+            for e in x.effects:
+                if e[0] == "index" and self.data_driven(e[2]):
+                    out.append("slice by a data value")
+                if e[0] == "call" and e[1].endswith("::split_at") and len(e[2]) == 2 and self.data_driven(("struct", "RangeTo", (("end", e[2][1]),))):
+                    out.append("split_at a data value")
+                if e[0] == "call" and pathsum.is_slice_get(("call",) + tuple(e[1:])) and self.data_driven(e[2][1]):
+                    out.append("get(range) by a data value")
+        return sorted(set(out))
+
     def data_driven(self, rng):
         """A slice bound that is a data value (not a length/position of parsed input)."""
         if rng[0] != "struct":
